@@ -9,6 +9,7 @@ Import ListNotations.
 
 Record cpoint := {
   cp_tags : tagset; cp_time : Z; cp_leaf : list bool; cp_sat : bool;
+  cp_fresh : bool;                       (* routed through a fresh ingestion context (no cached group) *)
   cp_routed : option (N * N);            (* (group id, shard id) the implementation routed the point to *)
   cp_hash : option (str * N)             (* bytes the implementation hashed and HashID of them *)
 }.
@@ -42,9 +43,9 @@ Definition with_born (c : ccase) : list (group * Z) := combine (c_groups (cc_cfg
 
 (* group the model writes point i into: an older group that accepts t, else the group created for it, whose span must
    be [trunc(t,d), +d) clipped; the flag reports a span disagreement *)
-Definition model_group (c : ccase) (i : Z) (t : Z) : option group * bool :=
+Definition model_group (c : ccase) (cache : option group) (i : Z) (t : Z) : option group * bool :=
   let before := map fst (filter (fun gb => snd gb <? i) (with_born c)) in
-  match find_group before t with
+  match pick_group cache before t with
   | Some g => (Some g, true)
   | None => match find (fun gb => snd gb =? i) (with_born c) with
             | Some (g, _) =>
@@ -61,10 +62,9 @@ Definition opt_pair_eqb (a b : option (N * N)) : bool :=
   | _, _ => false
   end.
 
-Definition point_codes (c : ccase) (i : Z) (cp : cpoint) : list N :=
+Definition point_codes (c : ccase) (mg : option group * bool) (cp : cpoint) : list N :=
   let cf := cc_cfg c in
   let p := to_point cp in
-  let mg := model_group c i (cp_time cp) in
   let routed := match fst mg with
                 | Some g => match route_in xxh64 cf g p with Some s => Some (g_id g, s_id s) | None => None end
                 | None => None
@@ -79,10 +79,14 @@ Definition point_codes (c : ccase) (i : Z) (cp : cpoint) : list N :=
       end)
   ++ (if snd mg then [] else [4%N]).
 
-Fixpoint points_codes (c : ccase) (i : Z) (cps : list cpoint) : list N :=
+(* the shared ingestion context remembers the group of its previous row; fresh contexts start empty and are dropped *)
+Fixpoint points_codes (c : ccase) (cache : option group) (i : Z) (cps : list cpoint) : list N :=
   match cps with
   | [] => []
-  | cp :: r => point_codes c i cp ++ points_codes c (i + 1) r
+  | cp :: r =>
+      let mg := model_group c (if cp_fresh cp then None else cache) i (cp_time cp) in
+      let cache' := if cp_fresh cp then cache else match fst mg with Some g => Some g | None => cache end in
+      point_codes c mg cp ++ points_codes c cache' (i + 1) r
   end.
 
 Definition variants : list variant :=
@@ -117,7 +121,7 @@ Fixpoint mask_of (vs : list variant) (bit : N) (c : ccase) : N :=
   end.
 
 Definition check_case (c : ccase) : list N * N :=
-  (points_codes c 0 (cc_points c)
+  (points_codes c None 0 (cc_points c)
    ++ (if list_eqb N.eqb (map g_id (query_groups (cc_cfg c) (cc_tmin c) (cc_tmax c))) (cc_qgroups c) then [] else [5%N]),
    mask_of variants 1%N c).
 
